@@ -434,6 +434,190 @@ pub fn run_sched_plans(rep: &mut Report, id: &str, cases: Vec<SchedCase>, phases
     if !skipped_cases.is_empty() { rep.set("cases_skipped_because_their_pre_history_failed", json!(skipped_cases)); }
 }
 
+/// C01 with the rules spread over several files (`--rules a.rules --rules b.rules`): for S3 and S14,
+/// every way of cutting the rule list in two, every history of depth <= 3 over {edit, build}: the
+/// verdict and the targets must be those of the reference evaluator, as with one file.
+fn several_rules_files_probe(rep: &mut Report)
+{
+    let mut total_runs = 0u64;
+    let mut splits = 0u64;
+    for sc in [scen::s3_multi(), scen::s14_five()]
+    {
+        let rules = sc.variants[0].clone();
+        for cut in 1..rules.len()
+        {
+            for swap in [false, true]
+            {
+                splits += 1;
+                let sc2 = sc.clone();
+                let rules2 = rules.clone();
+                let (r, outcome) = crate::sched::run_once(vec![], move ||
+                {
+                    let rc = crate::world::RunCfg::serial(ClockModel::Strict);
+                    let init = hist::initial_state(&sc2, false);
+                    let mut fs0 = init.fs.clone();
+                    fs0.remove(crate::world::RULES_FILE);
+                    crate::world::user_write(&mut fs0, "a.rules", crate::memsys::bytes(&crate::model::render_rules(&rules2[..cut].to_vec())));
+                    crate::world::user_write(&mut fs0, "b.rules", crate::memsys::bytes(&crate::model::render_rules(&rules2[cut..].to_vec())));
+                    let files: Vec<String> = if swap { vec!["b.rules".into(), "a.rules".into()] } else { vec!["a.rules".into(), "b.rules".into()] };
+                    let mut bad: Option<(Vec<String>, String)> = None;
+                    let mut runs = 0u64;
+                    let mut frontier: Vec<(crate::memsys::Fs, Vec<String>)> = vec![(fs0, vec![])];
+                    for _d in 0..3
+                    {
+                        let mut next = vec![];
+                        for (fs, path) in &frontier
+                        {
+                            // edits of every leaf to its other value
+                            for (leaf, dom) in &sc2.edits
+                            {
+                                for v in dom
+                                {
+                                    if fs.read(leaf).as_ref() == Some(v) { continue; }
+                                    let mut f = fs.clone();
+                                    crate::world::user_write(&mut f, leaf, v.clone());
+                                    let mut np = path.clone();
+                                    np.push(format!("edit({})", leaf));
+                                    next.push((f, np));
+                                }
+                            }
+                            for goal in &sc2.goals
+                            {
+                                let rr = crate::world::run_build_with(fs, &rc, goal, crate::world::RULER_DIR, files.clone());
+                                runs += 1;
+                                let mut np = path.clone();
+                                np.push(format!("build({}) --rules {} --rules {}", goal.clone().unwrap_or_default(), files[0], files[1]));
+                                match hist::expected_verdict(&rules2, fs, goal)
+                                {
+                                    Some((want, scope, ev)) =>
+                                    {
+                                        if rr.verdict != want && bad.is_none() { bad = Some((np.clone(), format!("verdict {:?} where {:?} is expected", rr.verdict, want))); }
+                                        if rr.verdict == crate::world::Verdict::Ok
+                                        {
+                                            for i in &scope
+                                            {
+                                                for t in rules2[*i].sorted_targets()
+                                                {
+                                                    let w = ev.values.get(&t).map(|x| x.0.clone());
+                                                    if rr.fs.read(&t) != w && bad.is_none() { bad = Some((np.clone(), format!("target {} is not what the rules of both files produce from scratch", t))); }
+                                                }
+                                            }
+                                        }
+                                    },
+                                    None => {},
+                                }
+                                next.push((rr.fs, np));
+                            }
+                        }
+                        frontier = next;
+                    }
+                    (bad, runs)
+                });
+                match (r, outcome.failure)
+                {
+                    (Some((bad, runs)), None) =>
+                    {
+                        total_runs += runs;
+                        if let Some((path, what)) = bad
+                        {
+                            rep.violation(Violation
+                            {
+                                property: "C01".into(),
+                                signature: "C01:rulesfiles:a build from several rules files differs from the reference".to_string(),
+                                summary: format!("{} ({} cut after rule {}, files {}) after [{}]", what, sc.name, cut, if swap { "in reverse order" } else { "in order" }, path.join(" ; ")),
+                                replay: json!({"engine": "rulesfiles"}),
+                            });
+                        }
+                    },
+                    (_, Some(f)) =>
+                    {
+                        rep.violation(Violation
+                        {
+                            property: "C01".into(),
+                            signature: "C01:rulesfiles:a build from several rules files panicked or hung".to_string(),
+                            summary: format!("{} cut after rule {}: {}", sc.name, cut, f),
+                            replay: json!({"engine": "rulesfiles"}),
+                        });
+                    },
+                    _ => rep.machinery("several-rules-files probe produced no result".to_string()),
+                }
+            }
+        }
+    }
+    rep.set("several_rules_files_probe", json!({"scenarios": ["S3-multi", "S14-five"], "splits": splits, "depth": 3, "builds": total_runs}));
+    rep.add("traces_validated_against_impl", total_runs);
+}
+
+/// C14 at the file level: the rules file is missing, empty, blank, not UTF-8, a directory, or one of
+/// two files is missing — build and clean (with and without a goal) must come back with a value (an
+/// error where there is nothing to parse), never panic or hang, and change nothing in the workspace.
+fn rules_file_io_probe(rep: &mut Report)
+{
+    let sc = scen::s1_chain();
+    let mut runs = 0u64;
+    let variants: Vec<(&str, Option<Vec<u8>>, bool)> = vec![
+        ("the rules file is missing", None, true),
+        ("the rules file is empty", Some(vec![]), false),
+        ("the rules file holds only blank lines", Some(b"\n\n\n".to_vec()), false),
+        ("the rules file is not UTF-8", Some(vec![0xff, 0xfe, b'\n', b':', b'\n']), true),
+        ("the rules file ends in the middle of a rule", Some(b"t\n:\ns1\n".to_vec()), true),
+        ("the rules file holds a NUL byte", Some(b"t\0\n:\ns1\n:\ncat s1 > t\n:\n".to_vec()), false),
+    ];
+    for (what, content, must_fail) in variants
+    {
+        for second_missing in [false, true]
+        {
+            for op in ["build", "clean"]
+            {
+                for goal in [None, Some("t".to_string())]
+                {
+                    let sc2 = sc.clone();
+                    let content2 = content.clone();
+                    let goal2 = goal.clone();
+                    let (r, outcome) = crate::sched::run_once(vec![], move ||
+                    {
+                        let rc = crate::world::RunCfg::serial(ClockModel::Strict);
+                        let mut fs = hist::initial_state(&sc2, false).fs.clone();
+                        fs.remove(crate::world::RULES_FILE);
+                        if let Some(c) = &content2 { crate::world::user_write(&mut fs, crate::world::RULES_FILE, std::sync::Arc::new(c.clone())); }
+                        let files: Vec<String> = if second_missing { vec![crate::world::RULES_FILE.to_string(), "missing.rules".to_string()] } else { vec![crate::world::RULES_FILE.to_string()] };
+                        let rr = if op == "build" { crate::world::run_build_with(&fs, &rc, &goal2, crate::world::RULER_DIR, files) } else { crate::world::run_clean_in(&fs, &rc, &goal2, crate::world::RULER_DIR) };
+                        let outside: Vec<String> = rr.log.muts.iter().filter(|m| m.ok && !m.in_cmd && !(m.path == crate::world::RULER_DIR || m.path.starts_with(".ruler/"))).map(|m| m.path.clone()).collect();
+                        (rr.verdict, outside)
+                    });
+                    runs += 1;
+                    let desc = format!("{}{}; {}({})", what, if second_missing && op == "build" { " and a second rules file is missing" } else { "" }, op, goal.clone().unwrap_or_default());
+                    match (r, outcome.failure)
+                    {
+                        (Some((verdict, outside)), None) =>
+                        {
+                            if (must_fail || (second_missing && op == "build")) && verdict == crate::world::Verdict::Ok
+                            {
+                                rep.violation(Violation { property: "C14".into(), signature: "C14:files:no error although there is no readable rules text".to_string(),
+                                    summary: format!("{}: returned success", desc), replay: json!({"engine": "rulesio"}) });
+                            }
+                            // (a rules text that does parse, however odd, may of course run commands)
+                            if !outside.is_empty() && !what.contains("NUL")
+                            {
+                                rep.violation(Violation { property: "C14".into(), signature: "C14:files:the workspace was changed although the rules could not be read or are empty".to_string(),
+                                    summary: format!("{}: changed {:?}", desc, outside), replay: json!({"engine": "rulesio"}) });
+                            }
+                        },
+                        (_, Some(f)) =>
+                        {
+                            rep.violation(Violation { property: "C14".into(), signature: "C14:files:reading the rules panicked or hung".to_string(),
+                                summary: format!("{}: {}", desc, f), replay: json!({"engine": "rulesio"}) });
+                        },
+                        _ => rep.machinery("rules-file probe produced no result".to_string()),
+                    }
+                }
+            }
+        }
+    }
+    rep.set("rules_file_io_probe_runs", json!(runs));
+    rep.add("traces_validated_against_impl", runs);
+}
+
 /// C09, "inside its own directory": every history of depth <= 3 over {edit, build, build(goal), clean,
 /// clean(goal)} of scenario S9 with the ruler directory set to something other than the default.
 /// Every mutation ruler itself makes must be on an in-scope target or inside THAT directory, and
@@ -565,6 +749,7 @@ fn check(id: &str, tier: &str) -> i32
             if thorough { let mut p = plan(scen::s1_chain_xyz(), 7); p.secs = secs; plans.push(p); let mut p = plan(scen::s14_five(), 6); p.secs = secs; plans.push(p); } else { let mut p = plan(scen::s14_five(), 4); p.secs = secs; plans.push(p); }
             plans.extend(coarse_plans(tier, secs, vec![(scen::s1_chain(), 6, 8), (scen::s3_multi(), 5, 7), (scen::s4_twins(), 5, 7), (scen::s19_aside(), 8, 10)]));
             run_hist_plans(&mut rep, id, plans);
+            several_rules_files_probe(&mut rep);
         },
         "C02" =>
         {
@@ -740,6 +925,7 @@ fn check(id: &str, tier: &str) -> i32
         {
             rep.assume("reference parser: lines are the pieces between '\\n'; errors are reported in file order; where several bundle defects are present any of them is accepted");
             crate::enum_parse::run(&mut rep, tier);
+            rules_file_io_probe(&mut rep);
         },
         "C15" =>
         {
@@ -790,6 +976,22 @@ fn replay_inner(path: &str) -> i32
     let r = &v["replay"];
     match r["engine"].as_str().unwrap_or("")
     {
+        "rulesio" =>
+        {
+            let mut rep = Report::new(&prop, "quick");
+            rep.write_evidence = false;
+            rules_file_io_probe(&mut rep);
+            let sig = v["signature"].as_str().unwrap_or("");
+            match rep.violations.iter().find(|x| x.signature == sig) { Some(x) => { println!("{}", x.summary); println!("VIOLATION property={} replay={}", prop, path); 1 }, None => 0 }
+        },
+        "rulesfiles" =>
+        {
+            let mut rep = Report::new(&prop, "quick");
+            rep.write_evidence = false;
+            several_rules_files_probe(&mut rep);
+            let sig = v["signature"].as_str().unwrap_or("");
+            if rep.violations.iter().any(|x| x.signature == sig) { println!("{}", rep.violations[0].summary); println!("VIOLATION property={} replay={}", prop, path); 1 } else { 0 }
+        },
         "altdir" =>
         {
             let mut rep = Report::new(&prop, "quick");
